@@ -4,4 +4,4 @@ Extraction Language OCaml.
 Extraction "C07/model_extracted.ml" force_types cookie_sansio cookie_http b64decode authorization_from_header
   www_authenticate_from_header get_host url_port get_content_length query_text
   parse_options_header parse_list_header parse_set_header parse_dict_header parse_etags parse_range_header
-  parse_content_range_header parse_age unquote_etag plain_int py_int Z_of_text text_of_Z.
+  parse_content_range_header parse_age unquote_etag plain_int py_int Z_of_text text_of_Z parse_accept_items.
